@@ -14,6 +14,25 @@ CLAIMS = {
  'C17': dict(cat='proof', ref='DESIGN 3 C17', technique='abstract interpretation of each accumulator operation into an affine map over Z/256; term identity with the specified map',
    text='Each Checksum operation, the five sink entry points and the two helpers are evaluated once on a symbolic state; the resulting Z256 map is identical to the specified one, which covers all 256x256 state/operand pairs and all byte strings.',
    note='wrapping_add/sub modelled as +/- mod 256; loop summarisation of byte folds is trusted.'),
+
+ 'C05': dict(cat='proof', ref='DESIGN 3 C05', technique='abstract interpretation on symbolic table states: counter/length pairing and read-before-advance; construction-site and verbatim-flow rules',
+   text='For PPTT, RHCT, RIMT and VIOT the offset counter equals the declared length after construction and is advanced by exactly the length delta in all 13 add paths; the returned handle is the pre-advance value; handle newtypes cannot be forged; each of the 8 handle-accepting APIs stores the handle unmodified in one field of the right width at the specified offset. Holds for all interleavings by induction.',
+   note='Relies on C02 (length == bytes emitted); cross-table misuse of handles and counter overflow (C18) are out of scope.'),
+ 'C06': dict(cat='other', ref='DESIGN 3 C06', technique='abstract interpretation: emission shape of constructor(args) vs grammar production table (spec/aml.py), incl. PkgLength framing',
+   text='Each of the 58 AML constructors is evaluated on symbolic arguments and its emission shape equals its ACPI ch.20 production: opcodes, operand order wired to the right arguments, flag packing, PkgLength covering exactly the rest of the object. The lift from per-constructor premises to whole trees is a structural induction argued in DESIGN, not mechanised - hence level other.',
+   note='Trusted: my production table; grammar unambiguity; name alphabet not validated by the crate.'),
+ 'C07': dict(cat='proof', ref='DESIGN 3 C07', technique='interval partition by the function\'s own comparisons + bit-slice normal form per cell; framing rule at call sites',
+   text='create_pkg_length is analysed for both include_self values over all 0 <= n < 2^28 by partitioning on its comparison constants (20 cells); on each cell every emitted byte is normalised to const | bits[a,b) of (len+k) and matches the specification, decode is exact and the inclusive form is shortest. 17 call sites pass the length of exactly the bytes that follow.',
+   note='n >= 2^28 is excluded by the property (C18 site).'),
+ 'C08': dict(cat='proof', ref='DESIGN 3 C08', technique='interval partition of the value range by the impls\' comparisons; per-cell identity with the specification table',
+   text='The five integer impls (delegation chain inlined) are partitioned by their comparison constants; on every cell of every type the flat emission equals the specification table entry, so every value of every type is covered and equal values give equal bytes.',
+   note='64-bit target (usize cfg arm as built).'),
+ 'C09': dict(cat='other', ref='DESIGN 3 C09', technique='interval partition on the segment count for the emitter; abstract evaluation of the parser with guard-dominates-store rule',
+   text='Path emission equals root?/prefix(n)/segments for every n in 1..=255 (cells), empty paths are refused; Path::new derives rootedness and segments as specified and the 4-byte assertion precedes every store.',
+   note='str::split / starts_with are uninterpreted functions of the input; character alphabet not validated (not required).'),
+ 'C16': dict(cat='other', ref='DESIGN 3 C16', technique='term identity between the abstractly evaluated constructors and the specification packing; guard-presence rule',
+   text='EISAName::new stores exactly swap_bytes of the specified 5/5/5/4/4/4/4-bit packing (term identity under valid-character ranges) and emits it as an integer constant; Uuid::new produces the 16 bytes of the mixed-endian map and emits them as a Buffer; all refusing assertions/unwraps (length, dashes, hex digits) are present on the only path to the value.',
+   note='char::to_digit modelled by its std contract; ASCII input assumed for char/byte index agreement.'),
 }
 NOT_YET = 'check not built yet (build in progress; design in DESIGN.md section 3)'
 
